@@ -94,6 +94,12 @@ func Judge(c *Call, env *Env) *Verdict {
 			props := P("C01", "C10")
 			vd.add(props, "required-acceptance", "the %s shard refused the %s message %s@%x emitted by a successful sender-side execution: %s", "destination", c.Kind, c.Func, c.Args, c.Err)
 		}
+		// the hand-over message the old holder's shard emitted must be accepted by the next holder's
+		// shard: there is no state in which a property lets it be refused (C07: the counter moves
+		// together with the role; C10: continuations are accepted)
+		if c.Func == FnCreateRoleTransfer && c.Kind == "cont" && vd.MustFail == "" && m.gaveUp == "" && !c.Fault {
+			vd.add(P("C07", "C10"), "required-acceptance", "the next holder's shard refused the hand-over message %s@%x: %s", c.Func, c.Args, c.Err)
+		}
 		vd.SupplyDelta, vd.Moved, vd.ContCarries = nil, nil, nil
 		vd.IssuedToken = nil
 		return vd
